@@ -35,13 +35,18 @@ fn ctext(k: usize, fancy: bool) -> String {
 /// Render a slot sequence of spec/Comments.tla as a container of the given kind.
 /// `trailing_comma`: put a comma after the last item; `fancy`: comment texts with brackets / quotes.
 pub fn render(kind: &str, src: &[String], trailing_comma: bool, fancy: bool, indent: &str) -> String {
+    render_opt(kind, src, trailing_comma, fancy, indent, false)
+}
+
+/// `flush`: comments on a line of their own start in column 0 instead of following the indentation
+pub fn render_opt(kind: &str, src: &[String], trailing_comma: bool, fancy: bool, indent: &str, flush: bool) -> String {
     let n_items = src.iter().filter(|s| *s == "i").count();
     let mut lines: Vec<String> = vec![];
     let mut item = 0;
     let mut cno = 0;
     for (p, s) in src.iter().enumerate() {
         match s.as_str() {
-            "c" => { cno += 1; lines.push(format!("{indent}  {}", ctext(cno, fancy))); }
+            "c" => { cno += 1; lines.push(if flush { ctext(cno, fancy) } else { format!("{indent}  {}", ctext(cno, fancy)) }); }
             "i" => {
                 item += 1;
                 let last = item == n_items;
@@ -111,6 +116,15 @@ pub fn programs(kind: &str, src: &[String]) -> Vec<(String, String)> {
         let tag = format!("{kind}{}{}", if tc { " trailing-comma" } else { "" }, if fancy { " fancy" } else { "" });
         v.push((tag.clone(), c.clone()));
         v.push((format!("{tag} assigned"), format!("z = {c}")));
+        if !fancy && !tc {
+            let cf = render_opt(kind, src, tc, fancy, "", true);
+            v.push((format!("{tag} flush-left"), format!("z = {cf}")));
+            v.push((format!("{tag} flush-left in-do"), format!("do {{\n  t = {}\n  return t\n}}", render_opt(kind, src, tc, fancy, "  ", true))));
+            v.push((format!("{tag} lambda via-left"), format!("f = q => ({c} via (w => w))")));
+            v.push((format!("{tag} lambda binop"), format!("f = q => ({c} == q)")));
+            v.push((format!("{tag} lambda into"), format!("f = (q, r?) => ({c} into len)")));
+            v.push((format!("{tag} lambda call-arg"), format!("f = q => max(1, len({c}))")));
+        }
         if !fancy {
             v.push((format!("{tag} in-list"), format!("[\n  1,\n  {}\n]", render(kind, src, tc, fancy, "  "))));
             v.push((format!("{tag} in-record"), format!("w = {{\n  a: {},\n  b: 2\n}}", render(kind, src, tc, fancy, "  "))));
